@@ -10,9 +10,10 @@ open(os.path.join(d, "patch.diff"), "wb").write(raw)
 diff = raw.decode("utf-8", "replace")
 shutil.copy(os.path.join(wt, "demo.py"), os.path.join(d, "demo.py"))
 w = subprocess.run(["/venv/bin/python", "demo.py"], cwd=wt, capture_output=True, text=True)
-subprocess.run(["git", "-C", wt, "stash", "-q"], check=True)
+# (not `git stash`: the stash is shared by all worktrees of a repository)
+subprocess.run(["git", "-C", wt, "apply", "-R", os.path.join(d, "patch.diff")], check=True)
 wo = subprocess.run(["/venv/bin/python", "demo.py"], cwd=wt, capture_output=True, text=True)
-subprocess.run(["git", "-C", wt, "stash", "pop", "-q"], check=True)
+subprocess.run(["git", "-C", wt, "apply", os.path.join(d, "patch.diff")], check=True)
 meta = {"property": prop, "checks": checks.split(","), "needs": needs,
         "files_changed": [l[6:] for l in diff.splitlines() if l.startswith("+++ b/")],
         "confirmed": {"demo_exit_with_change": w.returncode, "demo_exit_without_change": wo.returncode,
